@@ -74,6 +74,15 @@ func (fc *FuncCtx) load(fr *Frame, st *State, lv *LVal, pos token.Pos) Val {
 		v := At(Select(st.H(fc.p, lv.Heap), SBase(lv.Slice)), SOff(lv.Slice), lv.Idx)
 		st.assume(typeInv(lv.Typ, v, st.alloc))
 		return Val{T: v}
+	case lvElemS:
+		// element of a slice of flat structs: a tuple of the field values
+		var tup []Val
+		for _, f := range flatStructFields(lv.Typ) {
+			v := At(Select(st.H(fc.p, fc.p.elemFieldHeap(lv.Typ, f)), SBase(lv.Slice)), SOff(lv.Slice), lv.Idx)
+			st.assume(typeInv(f.Type(), v, st.alloc))
+			tup = append(tup, Val{T: v})
+		}
+		return Val{Tup: tup}
 	case lvGlobal:
 		if tb := fc.p.tableOfGlobal(lv.Global); tb != nil {
 			if tb.IsMap {
@@ -115,6 +124,18 @@ func (fc *FuncCtx) store(fr *Frame, st *State, lv *LVal, v Val, pos token.Pos) {
 	switch lv.Kind {
 	case lvCell:
 		st.cells[lv.Alloc] = v
+		return
+	case lvElemS:
+		flds := flatStructFields(lv.Typ)
+		if len(v.Tup) != len(flds) {
+			unsupp("store of a struct element without field values (%s)", fc.p.pos(pos))
+		}
+		for i, f := range flds {
+			if v.Tup[i].T == nil {
+				unsupp("store of a struct element with an unknown field %s (%s)", f.Name(), fc.p.pos(pos))
+			}
+			fc.store(fr, st, &LVal{Kind: lvElem, Heap: fc.p.elemFieldHeap(lv.Typ, f), Slice: lv.Slice, Idx: lv.Idx, Typ: f.Type()}, v.Tup[i], pos)
+		}
 		return
 	}
 	if v.T == nil {
@@ -189,6 +210,8 @@ func (fc *FuncCtx) execInstr(fr *Frame, st *State, ins ssa.Instruction) {
 			if s := sortOf(u.Elem()); s != nil {
 				h := fc.p.elemHeap(u.Elem())
 				st.setH(h, Store(st.H(fc.p, h), ref, constArray(ArraySort(SInt, s), zeroOf(u.Elem()))))
+			} else {
+				fc.zeroStructRow(st, ref, u.Elem())
 			}
 		}
 		fr.regs[x] = Val{T: ref}
@@ -223,6 +246,11 @@ func (fc *FuncCtx) execInstr(fr *Frame, st *State, ins ssa.Instruction) {
 		fr.regs[x] = Val{T: fc.binop(fr, st, x)}
 	case *ssa.FieldAddr:
 		xv := fc.value(fr, x.X)
+		if xv.LV != nil && xv.LV.Kind == lvElemS {
+			f := xv.LV.Typ.Underlying().(*types.Struct).Field(x.Field)
+			fr.regs[x] = Val{LV: &LVal{Kind: lvElem, Heap: fc.p.elemFieldHeap(xv.LV.Typ, f), Slice: xv.LV.Slice, Idx: xv.LV.Idx, Typ: f.Type()}}
+			return
+		}
 		if xv.T == nil {
 			unsupp("field address of non-reference at %s", fc.p.pos(x.Pos()))
 		}
@@ -261,6 +289,10 @@ func (fc *FuncCtx) execInstr(fr *Frame, st *State, ins ssa.Instruction) {
 		fc.addObl(fr, st, "index", fc.srcOf(x), in, x.Pos(), "index out of range")
 		st.assume(in)
 		if sortOf(elT) == nil {
+			if flatStructFields(elT) != nil {
+				fr.regs[x] = Val{LV: &LVal{Kind: lvElemS, Slice: sl, Idx: iv.T, Typ: elT}}
+				return
+			}
 			unsupp("element type %s", elT)
 		}
 		fr.regs[x] = Val{LV: &LVal{Kind: lvElem, Heap: fc.p.elemHeap(elT), Slice: sl, Idx: iv.T, Typ: elT}}
@@ -301,6 +333,8 @@ func (fc *FuncCtx) execInstr(fr *Frame, st *State, ins ssa.Instruction) {
 		if s := sortOf(elT); s != nil {
 			h := fc.p.elemHeap(elT)
 			st.setH(h, Store(st.H(fc.p, h), ref, constArray(ArraySort(SInt, s), zeroOf(elT))))
+		} else {
+			fc.zeroStructRow(st, ref, elT)
 		}
 		fr.regs[x] = Val{T: SliceMk(ref, IntLit(0), ln, cp)}
 	case *ssa.MakeMap:
@@ -1052,4 +1086,12 @@ func (fc *FuncCtx) goStmt(fr *Frame, st *State, x *ssa.Go) {
 	// (if it has a contract); its effects on this frame are not modelled.
 	fc.note(fmt.Sprintf("go statement at %s: the goroutine body is checked as a separate sequential function; interleavings are not modelled", fc.p.pos(x.Pos())))
 	fc.ghostAdd(st, "spawned", 1)
+}
+
+// zeroStructRow: the fresh array `ref` of flat structs holds zero values (one element heap per field)
+func (fc *FuncCtx) zeroStructRow(st *State, ref *Term, elT types.Type) {
+	for _, f := range flatStructFields(elT) {
+		h := fc.p.elemFieldHeap(elT, f)
+		st.setH(h, Store(st.H(fc.p, h), ref, constArray(ArraySort(SInt, sortOf(f.Type())), zeroOf(f.Type()))))
+	}
 }
